@@ -6,7 +6,7 @@ from vlib import Report, tlc, vh, vh_to_file, trace_validate, workdir, log, Infr
 
 FULL_C08 = {"MiEncodePayload", "header CBOR", "colliding header names serialised", "signed message", "Signature header text",
             "signature does not verify over the specified message", "header integrity", "file layout"}
-FULL_C02 = {"write limits", "read back", "signer refused"}
+FULL_C02 = {"write limits", "read back", "signer refused", "MiEncodePayload"}      # the payload the round trip must return is the one given to the library
 
 
 def txt(a):
@@ -80,7 +80,7 @@ def check_c08(tier):
 
 def _neg_full(rep, pid, cases):
     import re
-    good = [c for c in cases.values() if not c["writeerr"] and len(c["file"]) < 3000 and c["signerr"] == ""
+    good = [c for c in cases.values() if c["case"] not in rep.rejected_ids and not c["writeerr"] and len(c["file"]) < 3000 and c["signerr"] == ""
             and re.match(r"^https://[A-Za-z0-9.:-]+/[A-Za-z0-9._~/?=-]*$", txt(c["x"]["uri"]))][0]
     b1 = json.loads(json.dumps(good)); b1["case"] = "neg1"; b1["msg"][70] ^= 1
     b2 = json.loads(json.dumps(good)); b2["case"] = "neg2"; b2["file"][12] ^= 1
@@ -139,7 +139,7 @@ def _ver_violations(rep, cases, rejects, prefix):
 
 
 def _neg_ver(rep, pid, cases):
-    good = [c for c in cases.values() if c["ok"] and c["kind"] == "ver"][0]
+    good = [c for c in cases.values() if c["case"] not in rep.rejected_ids and c["ok"] and c["kind"] == "ver"][0]
     b1 = json.loads(json.dumps(good)); b1["case"] = "neg1"; b1["x"]["uri"] = b1["x"]["uri"] + [120]      # accepted with another URL
     b2 = json.loads(json.dumps(good)); b2["case"] = "neg2"; b2["ret"] = b2["ret"][:-1] if b2["ret"] else [1]
     b3 = json.loads(json.dumps(good)); b3["case"] = "neg3"; b3["signed"] = []
